@@ -107,11 +107,24 @@ def find_probe(tree, kind):
         if not tree['patterns']:
             return None
         pr = tree['patterns'][0]['root']
-        # the viewBox transform is pushed onto a group directly under the pattern root
-        gs = [ch for ch in pr.get('children', []) if ch.get('t') == 'g']
-        if len(gs) == 1 and gs[0].get('ts') is not None:
-            return gs[0]['ts']
-        return [1, 0, 0, 1, 0, 0]
+        # accumulate the group transforms from the pattern root down to the probe path: the viewBox
+        # transform must be applied exactly once on the way
+
+        def mul(a, b):   # a then-applied-after b:  a * b, both [sx,ky,kx,sy,tx,ty]
+            return [a[0] * b[0] + a[2] * b[1], a[1] * b[0] + a[3] * b[1],
+                    a[0] * b[2] + a[2] * b[3], a[1] * b[2] + a[3] * b[3],
+                    a[0] * b[4] + a[2] * b[5] + a[4], a[1] * b[4] + a[3] * b[5] + a[5]]
+        res = []
+
+        def rec(n, acc):
+            if n.get('t') == 'g':
+                acc = mul(acc, n['ts'])
+                for ch in n.get('children', []):
+                    rec(ch, acc)
+            elif n.get('t') == 'path' and n.get('fill') and n['fill']['paint'].get('rgb') == [1, 2, 3]:
+                res.append(acc)
+        rec(pr, [1.0, 0.0, 0.0, 1.0, 0.0, 0.0])
+        return res[0] if res else None
     walk(tree['root'], visit)
     if kind == 'image':
         ims = [x for x in found if isinstance(x, tuple)]
